@@ -397,6 +397,55 @@ func c05Case(c *core.Case) {
 		}
 		c.Count("consistency-checks-held")
 	}
+	// the same parsed expression in a second scope whose variables have other
+	// types (other element and attribute types under the same kinds): nothing
+	// learnt about types in the first abstract run may carry over
+	{
+		sc2 := gen.NewScope(r, gen.ValOpts{StrLevel: 1})
+		vars2 := map[string]cty.Value{}
+		for k, v := range sc.Vars {
+			vars2[k] = v
+		}
+		for k, v := range sc2.Vars {
+			vars2[k] = v
+		}
+		abs2 := map[string]cty.Value{}
+		for k, v := range vars2 {
+			abs2[k] = v
+		}
+		for _, n := range U {
+			abs2[n] = cty.UnknownVal(vars2[n].Type())
+		}
+		a2, ad2 := he.Value(ctxWith(abs2))
+		c2, cd2 := he.Value(ctxWith(vars2))
+		c.Evals(2)
+		if !ad2.HasErrors() && !cd2.HasErrors() {
+			a2, c2 = unmarked(a2), unmarked(c2)
+			bad := ""
+			conv := a2
+			if !a2.Type().Equals(c2.Type()) {
+				var err error
+				if conv, err = convert.Convert(a2, c2.Type()); err != nil {
+					bad = fmt.Sprintf("abstract result %s cannot convert to the concrete result's type %s (%v)", valStr(a2), c2.Type().FriendlyName(), err)
+				}
+			}
+			if bad == "" {
+				bad = consistent(conv, c2, "result")
+			}
+			if bad != "" {
+				// is it the re-use of the parsed expression? a fresh parse decides
+				fresh, _ := hclsyntax.ParseExpression([]byte(src), "p.hcl", hcl.InitialPos)
+				fa, fd := fresh.Value(ctxWith(abs2))
+				if !fd.HasErrors() && !unmarked(fa).RawEquals(a2) {
+					c.Violation("second-scope/abstract-result-depends-on-earlier-evaluation/"+ast.Shape(), fmt.Sprintf("%s parsed once: the abstract result in a second scope (variables of other types) is %s, a freshly parsed expression gives %s there\n%s", trunc(src, 300), valStr(a2), valStr(fa), bad), nil)
+					return
+				}
+				c.Count("second-scope:inconsistency-also-on-fresh-parse(judged by the first-scope relation)")
+			} else {
+				c.Count("second-scope-consistency-held")
+			}
+		}
+	}
 	if !aRes.IsWhollyKnown() && okRuns >= 2 {
 		c.NonTrivial(src + strings.Join(absDesc, ";"))
 		for _, k := range ast.KindsUsed() {
